@@ -74,6 +74,96 @@ theorem createFromPep508_url (t : String) (name : List Char) (es : List (List Ch
     hu.nosub, withVersion, bind, Except.bind, pure, Except.pure, Bool.false_eq_true, if_false, if_true]
   cases mkUrlDep (String.ofList name) url none (es.map String.ofList) <;> rfl
 
+/-- how `create_from_pep_508` reads a printed http(s) URL `purl` (all conditions are computations of the model's
+`urlsplit` / `urlunsplit` / `subdirectory_fragment` on the concrete text): the URL without fragment is `url`, the
+`#subdirectory=` fragment is `dir` -/
+structure UrlRead (purl : String) (u : SplitUrl) (url : String) (dir : Option String) : Prop where
+  split : urlsplit purl = .ok u
+  http : u.scheme = "http" ∨ u.scheme = "https"
+  netloc : u.netloc ≠ ""
+  unsplit : urlunsplit { u with fragment := "" } = url
+  sub : subdirFragment purl.toList = dir
+  nopct : u.path.toList.contains '%' = false
+  uri : UriOK purl.toList
+  noUnc : startsWithL ['\\', '\\'] purl.toList = false
+  last : ∃ p z, purl.toList = p ++ [z] ∧ isSpace z = false
+
+/-- **`create_from_pep_508` on a printed URL requirement, general form**: `URLDependency(name', url, directory=dir)`
+where `name'` is the requirement's name — or, for a wheel, the distribution name in the wheel's file name, whose version
+then becomes the constraint -/
+theorem createFromPep508_url_read (t : String) (name : List Char) (es : List (List Char)) (purl url : String)
+    (dir : Option String) (u : SplitUrl)
+    (htxt : t.toList = name ++ extrasText es ++ urlText (some purl.toList) ++ markerText none)
+    (hn : Ident name) (he : ∀ e ∈ es, Ident e) (hu : UrlRead purl u url dir) (hnc : NoComment t.toList) :
+    createFromPep508 t =
+      (if (extOf (basenameOf u.path.toList) == ".whl".toList) = true then
+        match wheelNameVer (if (basenameOf u.path.toList).isEmpty then u.netloc.toList else basenameOf u.path.toList) with
+        | some (n, v) => do
+          let d ← mkUrlDep (String.ofList n) url dir (es.map String.ofList)
+          withVersion d v
+        | none => .error .value
+       else mkUrlDep (String.ofList name) url dir (es.map String.ofList)) := by
+  have htr : Trimmed t.toList := by rw [htxt]; exact printed_url_trimmed _ _ _ hn hu.last
+  unfold createFromPep508 createFromPep508L
+  rw [stripComment_id _ hnc htr, htxt]
+  unfold Req.parseL
+  rw [parseRaw_url name es purl.toList none none hn he hu.uri trivial]
+  have hname : isUrlName (String.ofList name) = false := by
+    have hc := ident_noColon hn
+    unfold isUrlName
+    rw [String.toList_ofList, hc]
+    rfl
+  have hfile : (u.scheme == "file") = false := by rcases hu.http with h | h <;> rw [h] <;> decide
+  have hgitp : startsWithS "git+" u.scheme = false := by rcases hu.http with h | h <;> rw [h] <;> decide
+  have hgit : (u.scheme == "git") = false := by rcases hu.http with h | h <;> rw [h] <;> decide
+  have hhttp : (u.scheme == "http" || u.scheme == "https") = true := by rcases hu.http with h | h <;> rw [h] <;> decide
+  have hsn : (u.scheme != "" && u.netloc != "") = true := by
+    have h1 : (u.scheme != "") = true := by rcases hu.http with h | h <;> rw [h] <;> decide
+    have h2 : (u.netloc != "") = true := by simpa using hu.netloc
+    simp [h1, h2]
+  have hcheck : checkUrl purl = .ok () := by
+    simp [checkUrl, hu.split, hfile, hsn, bind, Except.bind, pure, Except.pure]
+  simp only [ofRaw, mkRaw, Option.map_some, Option.map_none, String.ofList_toList, hcheck, constraintTextOf,
+    parseConstraint_star, bind, Except.bind, pure, Except.pure]
+  by_cases hw : (extOf (basenameOf u.path.toList) == ".whl".toList) = true
+  · simp only [hw, if_true]
+    cases hwn : wheelNameVer (if (basenameOf u.path.toList).isEmpty then u.netloc.toList else basenameOf u.path.toList) with
+    | none =>
+      simp only [fromReq, hname, hu.noUnc, hu.split, hfile, hu.nopct, hw, hwn, bind, Except.bind, pure, Except.pure,
+        Bool.false_eq_true, if_false, if_true]
+    | some nv =>
+      obtain ⟨n, v⟩ := nv
+      simp only [fromReq, hname, hu.noUnc, hu.split, hfile, hu.nopct, hw, hwn, hgitp, hgit, hhttp, hu.unsplit, hu.sub,
+        bind, Except.bind, pure, Except.pure, Bool.false_eq_true, if_false, if_true]
+      cases mkUrlDep (String.ofList n) url dir (es.map String.ofList) with
+      | error e => rfl
+      | ok d0 => simp only []; cases withVersion d0 v <;> rfl
+  · have hw' : (extOf (basenameOf u.path.toList) == ".whl".toList) = false := by simpa using hw
+    simp only [hw', Bool.false_eq_true, if_false]
+    simp only [fromReq, hname, hu.noUnc, hu.split, hfile, hu.nopct, hw', hgitp, hgit, hhttp, hu.unsplit, hu.sub,
+      withVersion, bind, Except.bind, pure, Except.pure, Bool.false_eq_true, if_false, if_true]
+    cases mkUrlDep (String.ofList name) url dir (es.map String.ofList) <;> rfl
+
+/-- what `URLDependency(name, url, directory=dir)` is -/
+theorem mkUrlDep_fields_dir (n url : String) (dir : Option String) (es : List String) (d : Dep)
+    (h : mkUrlDep n url dir es = .ok d) :
+    d.spec.name = canonName n ∧ d.spec.features = normFeatures es ∧ d.kind = .url url dir ∧
+    d.spec.sourceType = some "url" ∧ d.spec.sourceUrl = some url ∧ d.spec.sourceSubdirectory = dir ∧
+    d.spec.sourceReference = none ∧ d.spec.sourceResolvedReference = none ∧ d.marker = .any ∧ d.constraint = VC.any := by
+  unfold mkUrlDep at h
+  simp only [bind, Except.bind, pure, Except.pure] at h
+  cases hs : urlsplit url with
+  | error e => simp [hs] at h
+  | ok u =>
+    simp only [hs] at h
+    split at h
+    · cases h
+    · simp only [Spec.make, normalizeSourceUrl, mkDepStr, parseConstraint_star, bind, Except.bind, pure, Except.pure] at h
+      have hng : (some "url" == some "git") = false := by decide
+      simp only [hng, Bool.and_false, Bool.false_eq_true, if_false] at h
+      cases h
+      exact ⟨rfl, rfl, rfl, rfl, rfl, rfl, rfl, rfl, rfl, rfl⟩
+
 /-- what `URLDependency(name, url)` is -/
 theorem mkUrlDep_fields (n url : String) (es : List String) (d : Dep) (h : mkUrlDep n url none es = .ok d) :
     d.spec.name = canonName n ∧ d.spec.features = normFeatures es ∧ d.kind = .url url none ∧
